@@ -4,6 +4,8 @@
 import DdnnfVerif.Proofs.LoadAll
 import DdnnfVerif.Props.C02
 import DdnnfVerif.Props.C03
+import DdnnfVerif.Props.C04
+import DdnnfVerif.Props.C05
 namespace Ddnnf.D4
 
 /-- the number of assignments to 1..n under which the text is true and all literals of `A` hold -/
@@ -25,7 +27,40 @@ theorem conventions_eval (lines : List Line) (total : Nat) (h : conventionsB lin
 theorem specCount_eq_textCount (lines : List Line) (total : Nat) (h : conventionsB lines total = true)
     (A : List Int) :
     specCount (load lines total).2.1 (load lines total).1 A = textCount lines total A := by
-  sorry
+  have hp : ∀ b : List Bool,
+      (eval (assignOf b) (load lines total).2.1 (rootIx (load lines total).2.1) &&
+          A.all (litTrue (assignOf b))) =
+        (evalB (assignOf b) (phase1B lines total).g ((phase1B lines total).g.kind.size + 1) 0 &&
+          A.all (litTrue (assignOf b))) := fun b => by
+    rw [conventions_eval lines total h (assignOf b)]
+  exact congrArg List.length (List.filter_congr fun b _ => hp b)
+
+theorem conventions2B_left (lines : List Line) (total : Nat) (h : conventions2B lines total = true) :
+    conventionsB lines total = true := by
+  unfold conventions2B at h
+  rw [Bool.and_eq_true] at h
+  exact h.1
+
+/-- the text has a model among the assignments to 1..n -/
+theorem textCount_nil_pos (lines : List Line) (total : Nat) (h : conventionsB lines total = true) :
+    0 < textCount lines total [] := by
+  have hs : satB (phase1B lines total).g (load lines total).1 = true := by
+    unfold conventionsB at h
+    simp only [Bool.and_eq_true] at h
+    exact h.2
+  unfold satB at hs
+  rw [List.any_eq_true] at hs
+  obtain ⟨b, hb, he⟩ := hs
+  unfold textCount
+  apply List.length_pos_of_mem (a := b)
+  rw [List.mem_filter]
+  exact ⟨hb, by rw [he]; rfl⟩
+
+/-- **text → loader → `count`** -/
+theorem loaded_count (lines : List Line) (total : Nat) (h : conventions2B lines total = true) :
+    count (load lines total).2.1 (rootIx (load lines total).2.1) = textCount lines total [] := by
+  rw [count_eq_specCount _ _ (conventions2B_sound lines total h).1,
+    specCount_eq_textCount lines total (conventions2B_left lines total h)]
 
 /-- **text → loader → `execute_query`**: for every d4 text that passes the conventions check and every
 in-range assumption list, the count the loaded model reports is the number of assignments under which
@@ -33,12 +68,87 @@ the text is true and the assumptions hold -/
 theorem loaded_execQuery (lines : List Line) (total : Nat) (h : conventions2B lines total = true)
     (A : List Int) (hA : InRange A (load lines total).1) :
     execQuery (load lines total).2.1 (load lines total).1 A = textCount lines total A := by
-  sorry
+  obtain ⟨hwf, hu, _⟩ := conventions2B_sound lines total h
+  rw [C02.count_under_assumptions_exact _ _ hwf hu A hA,
+    specCount_eq_textCount lines total (conventions2B_left lines total h)]
 
 /-- **text → loader → `sat`** -/
 theorem loaded_satQuery (lines : List Line) (total : Nat) (h : conventions2B lines total = true)
     (A : List Int) (hA : InRange A (load lines total).1) :
     satQuery (load lines total).2.1 (load lines total).1 A = decide (0 < textCount lines total A) := by
-  sorry
+  obtain ⟨hwf, hu, _⟩ := conventions2B_sound lines total h
+  have hc := conventions2B_left lines total h
+  have hpos : 0 < count (load lines total).2.1 (rootIx (load lines total).2.1) := by
+    rw [loaded_count lines total h]; exact textCount_nil_pos lines total hc
+  rw [C03.sat_agrees_with_models _ _ hwf hu hpos A hA, specCount_eq_textCount lines total hc]
+
+/-- **text → loader → per-feature table**: row f of `card_of_each_feature` is the number of
+assignments under which the text is true and feature f is selected -/
+theorem loaded_feature_rows (lines : List Line) (total : Nat) (h : conventions2B lines total = true)
+    (k : Nat) (hk : k < (load lines total).1) :
+    (cardPD (load lines total).2.1 (load lines total).1).getD k 0 =
+      textCount lines total [((k : Int) + 1)] := by
+  obtain ⟨hwf, hu, _⟩ := conventions2B_sound lines total h
+  rw [C04.row_is_single_literal_count _ _ hwf hu k hk,
+    specCount_eq_textCount lines total (conventions2B_left lines total h)]
+
+/-- one row per feature -/
+theorem loaded_feature_rows_length (lines : List Line) (total : Nat) :
+    (cardPD (load lines total).2.1 (load lines total).1).length = (load lines total).1 :=
+  C04.one_row_per_feature _ _
+
+/-- **text → loader → core / dead under assumptions**: literal l is reported exactly when adding it to
+the (non-empty, in-range) assumption list leaves the number of models of the text unchanged -/
+theorem loaded_core (lines : List Line) (total : Nat) (h : conventions2B lines total = true)
+    (A : List Int) (hA : InRange A (load lines total).1) (hne : A ≠ []) (l : Int) :
+    l ∈ coreDeadA (load lines total).2.1 (load lines total).1 A ↔
+      (l ≠ 0 ∧ l.natAbs ≤ (load lines total).1 ∧
+        textCount lines total (A ++ [l]) = textCount lines total A) := by
+  obtain ⟨hwf, hu, _⟩ := conventions2B_sound lines total h
+  have hc := conventions2B_left lines total h
+  rw [C05.core_with_assumptions_exact _ _ hwf hu A hA hne l,
+    specCount_eq_textCount lines total hc, specCount_eq_textCount lines total hc]
+
+/-- every listed model contains l  iff  adding l to the empty assumption list leaves the count unchanged -/
+theorem specCount_single_eq_iff (nodes : List NType) (n : Nat) (hwf : WF nodes n) (l : Int)
+    (hl : l ≠ 0 ∧ l.natAbs ≤ n) :
+    (∀ c ∈ models nodes (rootIx nodes), l ∈ c) ↔ specCount nodes n [l] = specCount nodes n [] := by
+  have hA : InRange [l] n := by
+    intro a ha; simp only [List.mem_singleton] at ha; subst ha; exact hl
+  rw [specCount_eq_filter nodes n hwf [l] hA, specCount_eq_filter nodes n hwf [] (by intro a ha; cases ha)]
+  have e : (models nodes (rootIx nodes)).filter (fun _ => true)
+      = models nodes (rootIx nodes) := List.filter_eq_self.mpr (fun _ _ => rfl)
+  simp only [List.all_cons, List.all_nil, Bool.and_true]
+  rw [e, ← List.countP_eq_length_filter, List.countP_eq_length]
+  simp
+
+/-- **text → loader → core / dead without assumptions** (`C05.core_exact`, whose right-hand side "every
+model contains l" is restated as "adding l leaves the number of models of the text unchanged") -/
+theorem loaded_core_nil (lines : List Line) (total : Nat) (h : conventions2B lines total = true)
+    (l : Int) :
+    l ∈ coreDeadA (load lines total).2.1 (load lines total).1 [] ↔
+      (l ≠ 0 ∧ l.natAbs ≤ (load lines total).1 ∧
+        textCount lines total [l] = textCount lines total []) := by
+  obtain ⟨hwf, hu, _⟩ := conventions2B_sound lines total h
+  have hc := conventions2B_left lines total h
+  have hpos : 0 < count (load lines total).2.1 (rootIx (load lines total).2.1) := by
+    rw [loaded_count lines total h]; exact textCount_nil_pos lines total hc
+  rw [coreDeadA_nil, C05.core_exact _ _ hwf hu hpos l, ← specCount_eq_textCount lines total hc,
+    ← specCount_eq_textCount lines total hc]
+  constructor
+  · rintro ⟨h1, h2, h3⟩
+    exact ⟨h1, h2, (specCount_single_eq_iff _ _ hwf l ⟨h1, h2⟩).mp h3⟩
+  · rintro ⟨h1, h2, h3⟩
+    exact ⟨h1, h2, (specCount_single_eq_iff _ _ hwf l ⟨h1, h2⟩).mpr h3⟩
+
+/-- core / dead report for every in-range assumption list, empty or not -/
+theorem loaded_core_any (lines : List Line) (total : Nat) (h : conventions2B lines total = true)
+    (A : List Int) (hA : InRange A (load lines total).1) (l : Int) :
+    l ∈ coreDeadA (load lines total).2.1 (load lines total).1 A ↔
+      (l ≠ 0 ∧ l.natAbs ≤ (load lines total).1 ∧
+        textCount lines total (A ++ [l]) = textCount lines total A) := by
+  cases A with
+  | nil => exact loaded_core_nil lines total h l
+  | cons a A => exact loaded_core lines total h (a :: A) hA (by simp) l
 
 end Ddnnf.D4
